@@ -13,11 +13,21 @@ class Evaluator:
     bindings: {callee qualified name: value}  value = bool / ('enum', name) / int
     locals are followed through their single definition."""
 
-    def __init__(self, fn, bindings=None, var_values=None, custom=None):
+    def __init__(self, fn, bindings=None, var_values=None, custom=None, enum_values=None):
         self.fn = fn
         self.b = bindings or {}
         self.vars = var_values or {}
         self.custom = custom
+        self.enum_values = enum_values or {}
+
+    def _num(self, v):
+        if isinstance(v, bool):
+            return None
+        if isinstance(v, int):
+            return v
+        if isinstance(v, tuple) and len(v) == 2 and v[0] == 'enum':
+            return self.enum_values.get(v[1])
+        return None
 
     def ev(self, nid, state=None, depth=0):
         fn = self.fn
@@ -35,7 +45,11 @@ class Evaluator:
         if k in ('int', 'char'):
             return n['v']
         if k == 'enum':
+            if n['name'] not in self.enum_values and 'v' in n:
+                self.enum_values[n['name']] = n['v']
             return ('enum', n['name'])
+        if k in ('cast', 'icast'):
+            return self.ev(n['e'], state, depth + 1)
         if k == 'un' and n['op'] == '!':
             v = self.ev(n['e'], state, depth + 1)
             return None if v is None else (not v)
@@ -64,7 +78,16 @@ class Evaluator:
                 b = self.ev(r, state, depth + 1)
                 if a is None or b is None:
                     return None
+                na, nb = self._num(a), self._num(b)
+                if na is not None and nb is not None:
+                    return (na == nb) if op == '==' else (na != nb)
                 return (a == b) if op == '==' else (a != b)
+            if op in ('<', '<=', '>', '>='):
+                a = self._num(self.ev(l, state, depth + 1))
+                b = self._num(self.ev(r, state, depth + 1))
+                if a is None or b is None:
+                    return None
+                return {'<': a < b, '<=': a <= b, '>': a > b, '>=': a >= b}[op]
             return None
         if k in ('call', 'construct'):
             cn = fn.cname(n)
